@@ -1071,11 +1071,11 @@ pub fn escape_string(s: &str) -> String {
             '\\' => result.push_str("\\\\"),
             '"' => result.push_str("\\\""),
             '\0' => result.push_str("\\0"),
-            c if c.is_control() => {
-                // Use \xNN for other control characters
-                for byte in c.to_string().bytes() {
-                    result.push_str(&format!("\\x{:02x}", byte));
-                }
+            // \xNN for the other ASCII control characters. The assembler reads \xNN as the
+            // character U+00NN, so the C1 controls (U+0080..U+009F, two UTF-8 bytes) must
+            // not be spelled byte by byte: they stay as they are
+            c if c.is_ascii_control() => {
+                result.push_str(&format!("\\x{:02x}", c as u32));
             }
             c => result.push(c),
         }
